@@ -103,6 +103,7 @@ func TestC09_Notebook(t *testing.T) {
 			}
 			oldCmds = append(oldCmds, c)
 		}
+		fileMode := c09DrawModes(t, base)
 		old := readOrNil(base.Notebook())
 		var oldEntries []database.Command
 		if old != nil {
@@ -213,7 +214,7 @@ func TestC09_Notebook(t *testing.T) {
 				saveCase("C09", "notebook", map[string]any{"test": "TestC09_Notebook", "note": "re-run the check; ops and k recorded", "old_saves": oldCmds, "op": args, "k": o.k, "message": o.msg})
 				t.Fatalf("write stopped after %d bytes: %s\n op=%+q old notebook=%d bytes new=%d bytes", o.k, o.msg, args, len(old), len(newBytes))
 			}
-			rec.Case(o.k > 0 && o.k < len(newBytes) && len(old) > 0, map[string]any{"target": "notebook", "op": args, "old_bytes": len(old), "new_bytes": len(newBytes), "k": o.k, "state_after": o.st}, "notebook", "after:"+o.st)
+			rec.Case(o.k > 0 && o.k < len(newBytes) && len(old) > 0, map[string]any{"target": "notebook", "op": args, "old_bytes": len(old), "new_bytes": len(newBytes), "k": o.k, "state_after": o.st, "file_mode": fileMode}, "notebook", "after:"+o.st, "mode:"+fileMode)
 		}
 	})
 }
@@ -226,10 +227,24 @@ func copyHomeRaw(dir string, src *proc.Home) *proc.Home {
 	for _, pair := range [][2]string{{src.Notebook(), h.Notebook()}, {src.History(), h.History()}} {
 		if b, err := os.ReadFile(pair[0]); err == nil {
 			os.MkdirAll(filepath.Dir(pair[1]), 0o755)
-			os.WriteFile(pair[1], b, 0o644)
+			mode := os.FileMode(0o644)
+			if st, err := os.Stat(pair[0]); err == nil {
+				mode = st.Mode().Perm() // the copy keeps the permission bits (a private 0600 notebook stays private)
+			}
+			os.WriteFile(pair[1], b, mode)
+			os.Chmod(pair[1], mode)
 		}
 	}
 	return h
+}
+
+// c09DrawModes gives the notebook and the history of h permission bits other than the 0644
+// the tool creates them with (a user's chmod, an older version, a restrictive umask).
+func c09DrawModes(t *rapid.T, h *proc.Home) string {
+	m := rapid.SampledFrom([]os.FileMode{0o644, 0o644, 0o600, 0o640, 0o664, 0o666, 0o400}).Draw(t, "file-mode")
+	os.Chmod(h.Notebook(), m)
+	os.Chmod(h.History(), m)
+	return fmt.Sprintf("%04o", m)
 }
 
 func loadHist(p string) ([]history.SearchEntry, error) {
@@ -284,6 +299,7 @@ func TestC09_History(t *testing.T) {
 		if err != nil {
 			t.Fatalf("harness: old history does not load: %v", err)
 		}
+		fileMode := c09DrawModes(t, base)
 		oldBytes := readOrNil(base.History())
 		q := rapid.SampledFrom(queries).Draw(t, "q")
 		args := []string{"--no-color", "-d", dbp, "--", q}
@@ -346,7 +362,7 @@ func TestC09_History(t *testing.T) {
 				saveCase("C09", "history", map[string]any{"test": "TestC09_History", "query": q, "k": o.k, "message": o.msg})
 				t.Fatalf("history write stopped after %d bytes: %s\n old history=%d bytes (%d entries)", o.k, o.msg, len(oldBytes), len(oldEntries))
 			}
-			rec.Case(o.k > 0 && o.k < newLen-8 && len(oldEntries) > 0, map[string]any{"target": "history", "query": q, "old_bytes": len(oldBytes), "k": o.k, "state_after": o.st}, "history", "after:"+o.st)
+			rec.Case(o.k > 0 && o.k < newLen-8 && len(oldEntries) > 0, map[string]any{"target": "history", "query": q, "old_bytes": len(oldBytes), "k": o.k, "state_after": o.st, "file_mode": fileMode}, "history", "after:"+o.st, "mode:"+fileMode)
 		}
 	})
 }
